@@ -188,6 +188,10 @@ def auto_discharge(world, fn, s, const_only_fns):
     body = list(M.all_bodies(fn))[s["body"]]
     if kind in ("str_index", "index") and s["call"].get("fnargs") and s["call"]["fnargs"][-1] == "core::ops::range::RangeFull":
         return "RANGE-FULL: indexing with `..` cannot fail"
+    if kind == "str_index":
+        if bound_provenance(body, s) is True:
+            return ("BOUND-PROVENANCE: every bound of the slice is 0, the length of the sliced string, a find/rfind position on that same string "
+                    "(plus the byte length of the pattern), or a constant covered by a dominating starts_with(ASCII literal)")
     if kind == "refcell":
         r = refcell_discharge(world, fn, body, s)
         if r:
@@ -660,8 +664,10 @@ def _pat_len(e):
 
 def _find_of(e, X):
     """If `e` is the position found by find/rfind on (a view of) X, return the pattern length (or 0 if unknown), else None."""
-    while e[0] in ("field", "variant") or (e[0] == "call" and e[1].rsplit("::", 1)[-1] in ("unwrap_or", "unwrap_or_else", "unwrap", "expect", "unwrap_or_default") and e[2]):
-        e = e[1] if e[0] in ("field", "variant") else e[2][0]
+    PASS = ("unwrap_or", "unwrap_or_else", "unwrap", "expect", "unwrap_or_default", "branch", "ok_or", "ok_or_else", "ok", "get", "new", "try_from",
+            "try_into", "from", "into")      # value-preserving on the success path (Option/Result plumbing, NonZero, int conversions)
+    while e[0] in ("field", "variant", "cast") or (e[0] == "call" and e[1].rsplit("::", 1)[-1] in PASS and e[2]):
+        e = e[1] if e[0] in ("field", "variant") else (e[2] if e[0] == "cast" else e[2][0])
     if e[0] == "call" and e[1].rsplit("::", 1)[-1] in ("find", "rfind") and len(e[2]) == 2 and _strip(e[2][0]) == X:
         return _pat_len(e[2][1]) or 0
     return None
